@@ -88,6 +88,14 @@ def check_column_stores(chk, prefix, r, others, lv):
                         iters.append(ast.unparse(n.iter))
             row_order = [i for i in iters if any(k in i for k in ("host_num_map", "address_space",
                                                                  "hosts"))]
+            if built is not None and not iters:
+                # no comprehension in the expression itself: follow the names it is built from
+                # (np.repeat(flags_per_subnet, subnet_sizes), running totals, ...)
+                from .rowprov import Prov, MAP_NAMES
+                leaves = Prov(r.ip.repo).closure(init, built)
+                if "<per-subnet>" in leaves and not (
+                        (MAP_NAMES | {"address_space", "hosts"}) & leaves):
+                    iters = ["the subnet-size list, position by position"]
             if iters and not row_order:
                 chk.ob(f"{prefix}.reset-store", desc, False,
                        f"the array is built by iterating {iters} - an order of its own - but row i "
